@@ -111,12 +111,37 @@ static void print_array(FILE* f, const void* p, size_t n, int esize) {
     }
 }
 
+/* ---- stage 3 (op `cfun3`): functions that take structs by pointer.  Same protocol and same wrapper type as stage 2: a
+ * struct argument travels FIELD BY FIELD as the comma-separated list of its leaf values (kind 8: uint64_t each, fixed
+ * length = number of leaves; array fields element by element; a pointer field as the offset into the array argument it
+ * points into).  The generated wrapper (cfunx3_*) builds the C struct in static storage with the pointer fields aimed
+ * into the exact-size heap copies of the array arguments, calls the REAL function (only for d=1), and writes every leaf of
+ * the struct back, so that every field after the call and every buffer is compared by the driver. */
+static const cfun2_entry* find_entry3(const char* name) {
+    for (int i = 0; i < CFUN3_TABLE_N; i++)
+        if (!strcmp(cfun3_table[i].name, name)) return &cfun3_table[i];
+    return NULL;
+}
+
+static int run_line23(hctx* h, const h_line* l, const char* op, const cfun2_entry* e);
+
+static int run_line3(hctx* h, const h_line* l) {
+    const char* f = h_in(l, "f");
+    if (!f) return 0;
+    return run_line23(h, l, "cfun3", find_entry3(f));
+}
+
 static int run_line2(hctx* h, const h_line* l) {
+    const char* f = h_in(l, "f");
+    if (!f) return 0;
+    return run_line23(h, l, "cfun2", find_entry2(f));
+}
+
+static int run_line23(hctx* h, const h_line* l, const char* op, const cfun2_entry* e) {
     const char* f = h_in(l, "f");
     const char* dv = h_in(l, "d");
     if (!f || !dv) return 0;
-    const cfun2_entry* e = find_entry2(f);
-    fprintf(h->out, "cfun2 f=%s", f);
+    fprintf(h->out, "%s f=%s", op, f);
     for (int i = 0; i < l->n_in; i++)
         if (l->in[i].key[0] == 'a' && l->in[i].key[1] >= '0' && l->in[i].key[1] <= '9')
             fprintf(h->out, " %s=%s", l->in[i].key, l->in[i].val);
@@ -172,14 +197,16 @@ static void gen_cfun(hctx* h) {
         if (h_parse_line(line, &l)) { fprintf(stderr, "cfun: bad input line\n"); exit(2); }
         if (!strcmp(l.op, "cfun")) run_line(h, &l);
         else if (!strcmp(l.op, "cfun2")) run_line2(h, &l);
+        else if (!strcmp(l.op, "cfun3")) run_line3(h, &l);
         h_free_line(&l);
     }
     free(line); fclose(in);
-    fprintf(h->out, "#stat functions %d\n#stat called %ld\n#stat skipped_undefined %ld\n", CFUN_TABLE_N + CFUN2_TABLE_N, n_called, n_skipped);
+    fprintf(h->out, "#stat functions %d\n#stat called %ld\n#stat skipped_undefined %ld\n", CFUN_TABLE_N + CFUN2_TABLE_N + CFUN3_TABLE_N, n_called, n_skipped);
 }
 
 static int replay_cfun(hctx* h, const h_line* l) {
     if (!strcmp(l->op, "cfun2")) return run_line2(h, l);
+    if (!strcmp(l->op, "cfun3")) return run_line3(h, l);
     if (strcmp(l->op, "cfun") != 0) return 0;
     return run_line(h, l);
 }
